@@ -442,6 +442,18 @@ Section Numeric.
     let variation : mat := fun i j => partial_trace dim choi i j - mid o i j in
     fun r c => choi r c - kron dim (fun i j => variation i j * kinv o (pow2 n)) (mid o) r c.
 
+  (* ---- noiseless process experiment at the qubit level ---------------------
+     input label -> the state the preparation circuit makes from the Fock input:
+     column (input_state) of INPUT_MAPPING's gate; the base circuit acts as the
+     d x d matrix V: rho -> V rho V^+; measurement as in [ideal_data] *)
+  Definition prep_vec (l : inlab) : nat -> K :=
+    fun a => input_gate l a (match l with XP | YP | ZP => O | XM | YM | ZM => 1%nat end).
+  Definition prep_rho1 (l : inlab) : mat := density_from_state (prep_vec l).
+  Definition in_rho (i : instr) : mat := kfold prep_rho1 i.
+  Definition out_rho (d : nat) (V rho : mat) : mat := mmul o d (mmul o d V rho) (madj o V).
+  Definition process_ideal (n : nat) (V : mat) (inputs : list instr) (req : list mstr) : list data :=
+    map (fun im => ideal_data n (snd im) (out_rho (2 ^ n)%nat V (in_rho (fst im)))) (experiments inputs req).
+
   (* MLEProcessTomography.process up to the call of pgdb: the dictionary nij *)
   Definition mle_nij (n : nat) (req : list mstr) (results : list data) : res (list ((instr * mstr) * K)) :=
     do full <- run_required n (istrings mle_inputs n) req results;
